@@ -899,9 +899,14 @@ def rule_G9(prog):
                     clos = closures.get(a["path"])
             if meth in ("retain", "retain_mut"):
                 ok = False
-                if clos is not None and clos.hir and clos.hir.get("body"):
-                    from .tables import unwrap, origin
-                    body = unwrap(clos.hir["body"])
+                from .tables import unwrap, origin, find_nodes
+                cnode = None
+                if clos is not None and fn.hir and fn.hir.get("body"):
+                    for n in find_nodes(fn.hir["body"], lambda n: n["k"] == "closure"):
+                        if n.get("def") == clos.path or (clos.path.endswith(str(n.get("def", "?")).split("::")[-1]) and n.get("line") == clos.line):
+                            cnode = n
+                if cnode is not None:
+                    body = unwrap(cnode["body"])
                     for _ in range(3):
                         if isinstance(body, dict) and body.get("k") == "block" and not body["b"]["stmts"] and body["b"].get("expr"):
                             body = unwrap(body["b"]["expr"])
